@@ -110,6 +110,21 @@ def port_ok(k, n, d, order) -> bool:
         return False
     if issubclass(P, Signal[vec(k, n + 1)]):
         return False
+    # the port is also a port / signal of every documented base of T (and of nothing unrelated)
+    for j in range(3):
+        rel = (j == 0) or (j == k)
+        if issubclass(P, Port[KINDS[j], direction]) != rel:
+            return False
+        if issubclass(P, Port[vec(j, n), direction]) != rel:
+            return False
+        if issubclass(P, Signal[KINDS[j]]) != rel:
+            return False
+        if issubclass(P, Signal[vec(j, n)]) != rel:
+            return False
+        if issubclass(P, Port[vec(j, n + 1), direction]):
+            return False
+    if issubclass(P, Variable[T]) or issubclass(P, Temporary[T]):
+        return False
     return True
 
 
@@ -159,3 +174,37 @@ def views_ok(W, k, val, wv, wsel, hi, lo, newbits, q) -> bool:
     if r._root is not obj._root or not isinstance(r, Q):
         return False
     return True
+
+
+def value_views_ok(W, k, val, hi, lo, newbits, path) -> bool:
+    """views of a plain value (not qualified): x.unsigned / x.signed / x.bitvector and slices of them alias x"""
+    top = (1 << W) - 1
+    k, val, path = conc(k, 0, 2), conc(val, 0, top), conc(path, 0, 7)
+    hi, lo, newbits = conc(hi, 0, W - 1), conc(lo, 0, W - 1), conc(newbits, 0, top)
+    if lo > hi:
+        return True
+    x = vec(k, W)(_bits(val, W)) if k == 0 else vec(k, W)(BitVector[W](_bits(val, W)))
+    width = hi - lo + 1
+    part = (newbits >> lo) & ((1 << width) - 1)
+    pv = BitVector[width](_bits(part, width))
+    full = BitVector[W](_bits((val & ~(((1 << width) - 1) << lo)) | (part << lo), W))
+    whole = width == W
+    if path == 0:
+        x.bitvector[hi:lo]._assign(pv)
+    elif path == 1:
+        x.unsigned[hi:lo]._assign(pv)
+    elif path == 2:
+        x.signed[hi:lo]._assign(pv)
+    elif path == 3:
+        x[hi:lo].bitvector._assign(pv)
+    elif path == 4:
+        x[hi:lo].unsigned.bitvector._assign(pv)
+    elif path == 5:
+        x[hi:lo].signed.bitvector._assign(pv)
+    elif path == 6:
+        x.bitvector.unsigned.bitvector[hi:lo]._assign(pv)
+    else:
+        x[W - 1:0][hi:lo]._assign(pv)
+    mask = ((1 << width) - 1) << lo
+    want = (val & ~mask) | (part << lo)
+    return int(str(x.bitvector), 2) == want
